@@ -28,6 +28,7 @@ type task struct {
 	budget   int64
 	done     bool
 	blocked  bool
+	stalled  bool // blocked with no step made; waits for another task's progress
 	overrun  bool
 	lastSite uint32
 	vc       []uint64
@@ -127,13 +128,24 @@ func RunTasks(fns []func(), budget []int64, choose Chooser) RunResult {
 	last, lastSite := 0, uint32(0)
 	idle := 0 // consecutive segments that ended blocked with zero progress
 	for {
+		// A task that blocked without making a step cannot get further until some other
+		// task has made progress: it is not offered to the chooser until then (a policy that
+		// insists on one task -- highest priority, "run to completion" -- would otherwise
+		// spin on it and look like a deadlock).
 		var runnable []int
+		live := 0
 		for _, t := range allTasks {
 			if !t.done && !t.overrun {
-				runnable = append(runnable, t.id)
+				live++
+				if !t.stalled {
+					runnable = append(runnable, t.id)
+				}
 			}
 		}
 		if len(runnable) == 0 {
+			if live > 0 {
+				res.Deadlock = true // every live task waits for a primitive only another waiting task can release
+			}
 			break
 		}
 		if idle > 2*len(runnable) {
@@ -170,8 +182,12 @@ func RunTasks(fns []func(), budget []int64, choose Chooser) RunResult {
 		}
 		if t.blocked && seg.Steps == 0 {
 			idle++
+			t.stalled = true
 		} else {
 			idle = 0
+			for _, o := range allTasks {
+				o.stalled = false
+			}
 		}
 		if id != last && last != 0 {
 			res.Switches++
